@@ -120,8 +120,8 @@ prop(
         "Batch.reset empties the batch (frame checked). Router.Fail hands a failed event to the dead queue iff one is configured (never to the main output), and Router.Stop stops the dead queue only after the main output has stopped, so a batch that exhausts its retries during shutdown still finds a dead queue that accepts it."
     ),
     undecided=[
-        "which of the two batchers (main / dead queue) commits first, and a dead-queue batcher stopped before the main output's last retries (Router.Stop order): interleavings, not decided",
-        "each output plugin's onError closure forwards every event to Router.Fail exactly once, and its IsDeadQueueAvailable option agrees with the router: per-plugin wiring, only the shared retry loop is under contract",
+        "which of the two batchers (main / dead queue) commits first: an interleaving, not decided (the order in which Router.Stop stops them is under contract)",
+        "each output plugin's onError closure forwards every event to Router.Fail exactly once, and its IsDeadQueueAvailable option agrees with the router: under contract for the Elasticsearch output only (C19), per-plugin wiring elsewhere",
         "'not committed while retries are pending' is Out not having returned plus program order in Batcher.work (C08/C01 contracts)",
     ],
     assumptions=[
